@@ -140,6 +140,9 @@ pub fn install_panic_hook() {
         } else {
             "<non-string panic>".into()
         };
+        if std::env::var("VSIM_PANIC_PRINT").is_ok() {
+            eprintln!("panic at {}: {}", loc, msg);
+        }
         LAST_PANIC.with(|p| *p.borrow_mut() = Some((loc, msg)));
     }));
 }
@@ -151,6 +154,9 @@ fn shorten(path: &str) -> String {
         if let Some(j) = rest.find('/') {
             return rest[j + 1..].to_string();
         }
+    }
+    if path.starts_with("src/") {
+        return format!("HARNESS/{}", path);
     }
     if let Some(i) = path.find("/verif/sim/") {
         return format!("HARNESS/{}", &path[i + 11..]);
